@@ -4,6 +4,7 @@ import (
 	"fmt"
 	"strings"
 	"sync"
+	"sync/atomic"
 	"testing"
 
 	"pgregory.net/rapid"
@@ -37,18 +38,20 @@ const reruns = 6
 // harness does not own, a failure is reported only when it shows again when the same
 // case is played again (otherwise it is recorded as flaky_schedule).
 func checkSession(r *vlib.Run, c sessCase) error {
-	err := runSession(c)
+	// the first play searches with short waits; whatever it reports is measured again
+	// in patient plays (long waits) before it counts
+	err := runSession(c, false)
 	if err == nil {
 		return nil
 	}
-	if _, ok := err.(*failure); !ok {
+	first, ok := err.(*failure)
+	if !ok {
 		return err // infra
 	}
-	first := err.(*failure)
-	fails, runs := 1, 1
-	last := first
-	for runs < 1+reruns && fails < 2 {
-		e := runSession(c)
+	var last *failure
+	runs := 1
+	for runs < 1+reruns && last == nil {
+		e := runSession(c, true)
 		runs++
 		if e == nil {
 			continue
@@ -57,15 +60,19 @@ func checkSession(r *vlib.Run, c sessCase) error {
 		if !ok {
 			return e
 		}
-		fails++
 		last = f
 	}
-	if fails >= 2 {
-		return fmt.Errorf("%s [failed in %d of %d plays of this case; first play: %s]", last.msg, fails, runs, first.kind)
+	if last != nil {
+		sessionViolated.Store(true)
+		return fmt.Errorf("%s [failed again in play %d of this case; first play: %s]", last.msg, runs, first.kind)
 	}
-	r.Flaky(fmt.Sprintf("%s: %s (not reproduced in %d more plays)", first.kind, first.msg, reruns))
+	r.Flaky(fmt.Sprintf("%s: %s (not reproduced in %d patient plays)", first.kind, first.msg, reruns))
 	return nil
 }
+
+// sessionViolated: a session test of this process has reported a violation; the other
+// session tests then stand back (their failing plays are slow and would say the same).
+var sessionViolated atomic.Bool
 
 // interleaved: two connections each carry data while both are open.
 func interleaved(c sessCase) bool {
@@ -279,6 +286,9 @@ const sessRule = "session: real agent listener behind server.Run on loopback, sc
 // TestSessionModel: rapid-drawn sessions against the byte-queue model.
 func TestSessionModel(t *testing.T) {
 	r := vlib.Open(prop)
+	if sessionViolated.Load() && !vlib.Replaying() {
+		t.Skip("a session violation was already reported by this process")
+	}
 	if replaySession(t, r, "TestSessionModel") {
 		return
 	}
@@ -356,6 +366,9 @@ type burstParams struct {
 // TestSessionBursts: end-of-stream right behind data, many times per session.
 func TestSessionBursts(t *testing.T) {
 	r := vlib.Open(prop)
+	if sessionViolated.Load() && !vlib.Replaying() {
+		t.Skip("a session violation was already reported by this process")
+	}
 	var bp burstParams
 	if vlib.ReplayCase("TestSessionBursts", &bp) {
 		if err := checkSession(r, burstCase(bp.Rounds, bp.Sizes, bp.ReadBuf, bp.Pair, bp.Disc, bp.Sync)); err != nil {
@@ -452,6 +465,9 @@ func (m mergeCase) session() sessCase {
 // TestSessionMerges: every interleaving of small per-connection scripts.
 func TestSessionMerges(t *testing.T) {
 	r := vlib.Open(prop)
+	if sessionViolated.Load() && !vlib.Replaying() {
+		t.Skip("a session violation was already reported by this process")
+	}
 	var mc mergeCase
 	if vlib.ReplayCase("TestSessionMerges", &mc) {
 		if err := checkSession(r, mc.session()); err != nil {
